@@ -108,45 +108,56 @@ func oracleC17Memberships(memberSel [][]int, noMembership bool) {
 //@   props C17
 //@   oracle
 //@   covers hasInterestingTags
-func oracleC17NodeEmission(tagSel []int) {
+//@   covers osmgeojson.Convert
+func oracleC17NodeEmission(start int, nTags int, step int, member bool, loneLocated bool) {
 	keys := []string{"source", "created_by", "note", "amenity", "name", "highway", "fixme", "odbl"}
-	vAssume(len(tagSel) <= 6)
 	var tags osm.Tags
-	used := map[string]bool{}
 	interesting := false
-	for _, s := range tagSel {
-		k := keys[c17Abs(s)%len(keys)]
-		if used[k] {
-			continue
-		}
-		used[k] = true
+	st := 2*(c17Abs(step)%4) + 1 // odd: distinct keys
+	for i := 0; i < c17Abs(nTags)%7; i++ {
+		k := keys[(c17Abs(start)%8+i*st)%len(keys)]
 		tags = append(tags, osm.Tag{Key: k, Value: "v"})
 		if !osm.UninterestingTags[k] {
 			interesting = true
 		}
 	}
+	lone := &osm.Node{ID: 3} // not part of any way; located or not
+	if loneLocated {
+		lone.Lat, lone.Lon, lone.Version = 3, 3, 1
+	}
 	o := &osm.OSM{
 		Nodes: osm.Nodes{
 			{ID: 1, Lat: 1, Lon: 1, Version: 1, Tags: tags},
 			{ID: 2, Lat: 2, Lon: 2, Version: 1},
+			lone,
 		},
 		Ways: osm.Ways{{ID: 1, Version: 1, Nodes: osm.WayNodes{{ID: 1}, {ID: 2}}, Tags: osm.Tags{{Key: "highway", Value: "path"}}}},
+	}
+	if member {
+		o.Relations = osm.Relations{{ID: 9, Version: 1, Tags: osm.Tags{{Key: "type", Value: "site"}},
+			Members: osm.Members{{Type: osm.TypeNode, Ref: 1, Role: "x"}}}}
 	}
 	fc, err := Convert(o)
 	vAssert(err == nil && fc != nil)
 	if fc == nil {
 		return
 	}
-	points := 0
+	count := map[int]int{}
 	for _, f := range fc.Features {
 		if f.Properties["type"] == "node" {
-			points++
-			vAssert(f.Properties["id"] == 1 || f.Properties["id"] == int64(1) || f.Properties["id"] == osm.NodeID(1))
+			id, ok := f.Properties["id"].(int)
+			vAssert(ok)
+			count[id]++
 		}
 	}
-	if interesting {
-		vAssert(points == 1)
-	} else {
-		vAssert(points == 0)
+	// at most one feature per node; node 2 (plain way node) never; node 3 exactly when located
+	want1 := 0
+	if interesting || member {
+		want1 = 1
 	}
+	want3 := 0
+	if loneLocated {
+		want3 = 1
+	}
+	vAssert(count[1] == want1 && count[2] == 0 && count[3] == want3)
 }
